@@ -144,7 +144,7 @@ def nye(ctx):
         calls.append(('lstsq', np.array(A, dtype=object), np.array(B, dtype=object)))
         M = symarray('m%d_' % k, (3, 3), real=True)
         Mx[k] = M
-        return (M,)
+        return (M, 'residuals', 'rank', 'singular values')
     obj = SymObj(cls, {'G': G, 'system': Sys(), 'neighbors': NL()}, 'self')
     ev = _ev(ctx, ST)
     ev.np_override = {'numpy.linalg.lstsq': lstsq}
@@ -215,7 +215,7 @@ def solve_g(ctx):
 
     def lstsq(A, B, rcond=None):
         calls.append(('lstsq', A, B))
-        return (symarray('s', (3, 3), real=True),)
+        return (symarray('s', (3, 3), real=True), 'residuals', 'rank', 'singular values')
 
     class W(PyStub):
         def warn(self, *a, **k):
@@ -257,9 +257,16 @@ def solve_g(ctx):
             ctx.ob('SOLVE-G', loc, 'an atom without matched pairs gets G = I; the others the fitted G', bool(ok), node=fn, key='identity')
     # each derived property recomputes when cleared; clear_properties resets all
     cp = ctx.fn(ST, 'Strain.clear_properties')
-    reset = {norm(t) for s in cp.body if isinstance(s, ast.Assign) and isinstance(s.value, ast.Constant) and s.value.value is None for t in s.targets}
-    want = {'self.__' + k for k in ('G', 'strain', 'invariant1', 'invariant2', 'invariant3', 'angularvelocity', 'rotation', 'nye')}
-    ctx.ob('SOLVE-G', ST + '::Strain.clear_properties', 'clear_properties resets G and all seven derived quantities', reset >= want, 'missing %s' % sorted(want - reset), node=cp)
+    names = ('G', 'strain', 'invariant1', 'invariant2', 'invariant3', 'angularvelocity', 'rotation', 'nye')
+    filled = SymObj(ctx.fn(ST, 'Strain'), {'_Strain__' + k: 'CACHED' for k in names}, 'self')
+    filled.attrs['_Strain__theta_max'] = 'KEPT'
+    try:
+        _one(_ev(ctx, ST).run_fn(cp, [filled], {}), 'Strain.clear_properties')
+    except Opaque as e:
+        raise AnalysisError('Strain.clear_properties: %s' % e)
+    left = sorted(k for k in names if filled.attrs.get('_Strain__' + k) is not None)
+    ctx.ob('SOLVE-G', ST + '::Strain.clear_properties', 'clear_properties resets G and all seven derived quantities (and nothing else)', not left and filled.attrs.get('_Strain__theta_max') == 'KEPT',
+           'still set: %s' % left, node=cp)
     pass
 
 
